@@ -5,7 +5,32 @@ NOTES = ("Every check = regenerate Lz4V/Gen from /repo, lake build + axiom audit
 NOT_APPLICABLE = {}
 _BLOCK_NOTE = ("Trusted: Lean kernel; the hand-written block-format specification (Lz4V/Spec/Block.lean); the hand-written models, tied to "
                "the code by regenerated constants/leaf functions and by byte-exact differential runs; Go runtime; lengths < 2^62.")
+_FRAME_NOTE = ("Trusted: Lean kernel; the hand-written frame/legacy specification (Lz4V/Spec/Frame.lean) and block/XXH32 specifications; the "
+               "hand-written Writer/Reader models (Lz4V/Model/FrameW.lean, FrameR.lean) tied to the code by regenerated constants, flag getters and "
+               "state values and by differential runs comparing every call's result and every sink write; scripted sinks/sources of the harness; "
+               "Go runtime. Concurrency > 1 is compared on delivered bytes and results (not on read-ahead), see C08.")
 CHECKS = {
+    "C02": dict(text="Writer and Reader models agree with the real objects on every call result and every sink write over the option matrix, input sizes around block "
+                     "multiples, write/flush partitions and ReadFrom; every clean frame is read back by the real Reader in three regimes and decoded by the independent spec.",
+                technique="Lean 4 Writer/Reader models + frame spec oracle, differential correspondence", note=_FRAME_NOTE),
+    "C05": dict(text="Every mutated frame the real Reader accepts is re-decoded by the independent Lean frame specification on exactly the consumed bytes; outputs must be "
+                     "identical. Reader model agrees with the real Reader on every mutant.", technique="Lean 4 frame spec as acceptance oracle + Reader model correspondence", note=_FRAME_NOTE),
+    "C06": dict(text="All prefixes of small frames, structural boundaries +-3 and sampled interior cuts of large ones (real Writer frames and independent-builder frames): "
+                     "never a clean EOF, delivered bytes a prefix; Reader model agrees.", technique="Lean 4 Reader model correspondence + truncation oracle", note=_FRAME_NOTE),
+    "C07": dict(text="Hostile streams (random, hostile fields, every first word 0x184Dxxxx sampled/complete, long single-field repetitions) under a per-call watchdog; "
+                     "expected error classes for the magic rules; heap growth bounded; Reader model (a total Lean function) agrees.",
+                technique="Lean 4 total Reader model correspondence + watchdog/heap oracle", note=_FRAME_NOTE),
+    "C09": dict(text="Every frame emitted in a clean session is decoded by the strict Lean frame specification (version, reserved bits, header checksum, configured content "
+                     "size, block maximum, checksums over the designated bytes, end mark) resp. the legacy specification; Writer model byte-identical.",
+                technique="Lean 4 strict frame spec oracle + Writer model correspondence", note=_FRAME_NOTE),
+    "C15": dict(text="Every failure index k of the sink / source up to beyond the fault-free call count, sequential and concurrent; source fragmentations incl. 1-byte and data+EOF; "
+                     "the models predict each call's result and the sink bytes.", technique="Lean 4 models with scripted failing I/O, correspondence", note=_FRAME_NOTE),
+    "C16": dict(text="Dependent-block frames from an independent encoder (matches at exactly 65535, across block boundaries, raw/compressed mixes, tiny to large blocks) are decoded by "
+                     "the real Reader (all buffer regimes, concurrency settings) to the spec's content; Reader model agrees.",
+                technique="independent encoder + Lean 4 spec oracle + Reader model correspondence", note=_FRAME_NOTE),
+    "C17": dict(text="Random call sequences incl. misuse on sequential and concurrent objects, each call under a watchdog; the Lean Writer/Reader models are the reference model "
+                     "and predict every result and every sink byte; direct checks for double Close, write after Close, Flush prefix, Read after EOF.",
+                technique="Lean 4 reference state-machine models, correspondence over call sequences", note=_FRAME_NOTE),
     "C01": dict(text="Models of both compressors (Lz4V/Model/Fast.lean, HC.lean) are byte-identical with the real code on every generated case "
                      "(objects reused across inputs, pooled functions, all depth classes); the real output is decoded by the package's decoder and by the "
                      "independent Lean specification. Theorems about the models are being added (see evidence.theorems); until C01's theorems are "
